@@ -89,6 +89,14 @@ def mapOr {α β} (o : Option α) (d : β) (f : α → β) : β := match o with 
 /-- `Option::map_or(default, f)` with a closure that can panic -/
 def mapOrM {α β} (o : Option α) (d : β) (f : α → Res β) : Res β := match o with | some a => f a | none => .ok d
 
+/-- `Option::map_or_else(|| d, f)` (both in the same representation: values, or computations) -/
+def mapOrElse {α β} (o : Option α) (d : β) (f : α → β) : β := match o with | some a => f a | none => d
+
+/-- `Result::err` (on an evaluated `Result` value) -/
+def resErr {α} : Res α → Option Err
+  | .err e => some e
+  | _ => none
+
 /-- `Result::is_ok` / `is_err` (on an evaluated `Result` value) -/
 abbrev isOk {α} (r : Res α) : Bool := r.isOk
 abbrev isErr {α} (r : Res α) : Bool := r.isErr
@@ -184,6 +192,9 @@ abbrev takeWhile {α} (l : List α) (p : α → Bool) : List α := l.takeWhile p
 abbrev take {α} (l : List α) (n : Nat) : List α := l.take n
 abbrev skip {α} (l : List α) (n : Nat) : List α := l.drop n
 abbrev chain {α} (l m : List α) : List α := l ++ m
+
+/-- `it.chain(std::iter::repeat(x)).take(n)`: the items of `it`, then `x` for ever, cut after `n` -/
+def padTake {α} (l : List α) (x : α) (n : Nat) : List α := (l ++ List.replicate n x).take n
 
 /-- `it.cycle().take(n)`, as `Cycle::next` runs: when the current pass is exhausted restart from a clone of the original;
 an empty original yields nothing -/
